@@ -147,6 +147,13 @@ func startNode(dir string, fast bool) (*vnode, error) {
 
 func (n *vnode) stop() {
 	n.srv.Close()
+	// the per-request helper goroutines of GetMessages leave GetNext only after
+	// their handler interrupted them; closing the database under them would be a
+	// harness artefact (a real node never closes the stream while it serves)
+	for i := 0; i < 3; i++ {
+		outputStream.InterruptGetNext()
+		time.Sleep(100 * time.Millisecond)
+	}
 	n.raft.Shutdown().Error()
 	n.logStore.Close()
 	if n.fsm.ircstore != nil {
